@@ -16,7 +16,7 @@ Regions == [raw |-> <<"filler_a", "config", "filler_b">>,
 Fields == [raw |-> {"setting_length", "ua_length", "first_index"},
            pe |-> {"e_lfanew", "n_sections", "opt_size", "export_rva", "sec_rawptr", "sec_vsize", "sec_rawsize", "size_of_headers", "machine", "setting_length"},
            xorenc |-> {"nonce_size", "marker", "e_lfanew", "n_sections"},
-           guard |-> {"guard_marker", "guard_opt_length", "guard_checksum", "guard_terminator"},
+           guard |-> {"guard_marker", "guard_opt_length", "guard_checksum", "guard_checksum_length", "guard_terminator"},
            http |-> {"status", "crlfcrlf", "version"}]
 Values == {"zero", "one", "max", "beyond_eof"}
 VARIABLES layout, faults
